@@ -1274,6 +1274,30 @@ impl Table {
         Ok((block_handle.get_offset(), entries))
     }
 
+    /// The footer's handles (metaindex, index) and the handle of every data block as
+    /// (offset, size) pairs.
+    #[allow(clippy::type_complexity)]
+    pub(crate) fn verif_handles(&self) -> ((u64, u64), (u64, u64), Vec<(u64, u64)>) {
+        let pair = |h: &BlockHandle| (h.get_offset(), h.get_size());
+        let mut blocks = vec![];
+        for (_key, raw) in self.verif_index_entries() {
+            if let Ok(h) = BlockHandle::try_from(&raw) {
+                blocks.push(pair(&h));
+            }
+        }
+        (
+            pair(self.footer.get_metaindex_handle()),
+            pair(self.footer.get_index_handle()),
+            blocks,
+        )
+    }
+
+    /// Whether the block at (offset, size) can be read (checksum, decompression, block parsing).
+    pub(crate) fn verif_block_readable(&self, offset: u64, size: u64) -> bool {
+        let handle = BlockHandle::new(offset, size);
+        Table::get_data_block_reader_from_disk::<InternalKey>(&*self.file, &handle).is_ok()
+    }
+
     /// Consult the filter block, if the table has one.
     pub(crate) fn verif_filter_may_match(&self, block_offset: u64, user_key: &[u8]) -> Option<bool> {
         self.maybe_filter_block
